@@ -370,13 +370,16 @@ class _Tracer:
         return out
 
 
-def dyadic_refine(eng, ctx, extra, odd=False):
+def dyadic_refine(eng, ctx, extra, odd=False, quick=False):
     """re-solve the violating query with every real input restricted to small dyadic rationals
     (odd=True: odd multiples of 1/8 or 1/64, which avoids the integer coincidences of periodic functions)"""
     reals = [c for c in ctx.inputs.values() if c is not None and c.sort() == z3.RealSort()]
     if not reals:
         return None
-    for m, bound in ((None, 50),) if odd else ((0, 1000), (1, 1000), (3, 10000), (6, 100000)):
+    levels = ((None, 50),) if odd else ((0, 1000), (1, 1000), (3, 10000), (6, 100000))
+    if quick:
+        levels = ((0, 1000), (3, 10000))
+    for m, bound in levels:
         cons = []
         ks = []
         for i, c in enumerate(reals):
@@ -392,7 +395,7 @@ def dyadic_refine(eng, ctx, extra, odd=False):
         if odd and len(ks) > 1:
             cons.append(z3.Distinct(*ks))
         save = (eng.timeout_ms, eng.inc_timeout_ms)
-        eng.timeout_ms, eng.inc_timeout_ms = 4000, 2000
+        eng.timeout_ms, eng.inc_timeout_ms = (1500, 1000) if quick else (4000, 2000)
         try:
             r, mdl = eng.query(*(list(extra) + cons), want_model=True)
         finally:
@@ -545,7 +548,7 @@ def run_job(prop, prop_mod, harness, cfg, tier, seed, known_pass=None):
             return
         # path without violation: validate its witness against the real code
         if harness.validate and rec["witness_validated"] < max_validate:
-            mdl = dyadic_refine(eng, ctx, []) or eng.witness()
+            mdl = dyadic_refine(eng, ctx, [], quick=True) or eng.witness()
             if mdl is not None:
                 vals = model_inputs(ctx, mdl)
                 res = run_concrete(prop_mod, harness, cfg, vals, seed)
